@@ -24,7 +24,9 @@ STRICT = ['U4c', 'h', '%4c', ',', '&&', '#c', '-4c', '|', '+', '4', '16.', '*cle
           # a rest followed by a signifier the grammar allows on notes only (the recovering parser tries a chord)
           '4rx', '4r^', '8.r:', '4rL', '4r~', '4r_', '4rM', 'r;x', '4r 4',
           # a character the LEXER does not know, appended / prepended / inserted (reported by the lexer, not the parser)
-          '4c§', '§4D', '4§f#', '*M3€/4', '4r¿', '€', '=1§', '*clef§G2']
+          '4c§', '§4D', '4§f#', '*M3€/4', '4r¿', '€', '=1§', '*clef§G2',
+          # blanks at the end of the cell (also of the LAST cell of a line): reported, and kept verbatim
+          'c4 ', '4zz ', '4d ', '4r  ', '4c\xa0']
 STOPPER = ['4cU', '4c%', '=1zz', '*clefG2x', '*zz', '*M4/4x', '4rU', '.x']      # a complete token + something that cannot continue it (D7)
 _HIST = []
 
